@@ -35,6 +35,10 @@ fn with_ctx<F: FnOnce(&mut Ctx)>(f: F) {
 fn pair_values(r: &mut Rng, sn: usize, dw: u32, count: usize) -> Vec<B> {
     let mut v: Vec<B> = Vec::new();
     let sw = 8 * sn;
+    if count >= 40 && sn == 1 {
+        // thorough tier: every value of an 8-bit source
+        return (0..=255u8).map(|x| vec![x]).collect();
+    }
     v.push(gen::zero(sn));
     v.push(gen::small(sn, 1));
     v.push(gen::ones(sn));
@@ -105,6 +109,9 @@ where
     D: Bn + CastFrom<S> + BTryFrom<S>,
 {
     with_ctx(|c| {
+        if !c.cli.only_width.map_or(true, |x| x == S::W) {
+            return;
+        }
         let thorough = c.cli.tier == "thorough";
         let prop = c.cli.prop.clone();
         let sn = (S::W / 8) as usize;
@@ -128,6 +135,45 @@ where
         let lab: &'static str = Box::leak(format!("{}>{}", label::<S>(), label::<D>()).into_boxed_str());
         c.sink.merge(S::W, S::S, "bnum", vec![(lab, rec)]);
     });
+}
+/// num_traits::AsPrimitive between two bnum integers of one digit family (the impl exists per family only)
+fn asprim_fn<S, D>()
+where
+    S: Bn + num_traits::AsPrimitive<D>,
+    D: Bn + CastFrom<S> + Copy + 'static,
+{
+    with_ctx(|c| {
+        if !c.cli.only_width.map_or(true, |x| x == S::W) {
+            return;
+        }
+        let thorough = c.cli.tier == "thorough";
+        let sn = (S::W / 8) as usize;
+        let mut r = Rng::new(c.cli.seed ^ ((S::W as u64) << 41) ^ ((D::W as u64) << 21) ^ (S::S as u64) << 1 ^ (D::S as u64) ^ 0xA5);
+        let vals = pair_values(&mut r, sn, D::W, if thorough { 60 } else { 14 });
+        let mut rec = Rec::new();
+        let ty = Arg::Int { w: D::W, s: D::S, v: vec![] };
+        rec.sem = "C09";
+        for b in vals.iter() {
+            let x = S::dec(b);
+            rec.fam("as", vec![int(&x), ty.clone()]);
+            rec.form("asprimitive", || val(<S as num_traits::AsPrimitive<D>>::as_(x)));
+            rec.form("cast_from", || val(<D as CastFrom<S>>::cast_from(x)));
+        }
+        let lab: &'static str = Box::leak(format!("{}>{}:asprim", label::<S>(), label::<D>()).into_boxed_str());
+        c.sink.merge(S::W, S::S, "bnum", vec![(lab, rec)]);
+    });
+}
+macro_rules! asprim_family {
+    ($($U:ident, $I:ident);*) => {$(
+        asprim_fn::<$U<1>, $U<3>>();
+        asprim_fn::<$U<3>, $I<2>>();
+        asprim_fn::<$I<2>, $U<5>>();
+        asprim_fn::<$I<5>, $I<1>>();
+        asprim_fn::<$U<4>, $I<4>>();
+        asprim_fn::<$I<3>, $U<3>>();
+        asprim_fn::<$I<1>, $I<9>>();
+        asprim_fn::<$U<9>, $U<2>>();
+    )*};
 }
 macro_rules! pair_body {
     ($S:ty, $D:ty) => {
@@ -211,6 +257,7 @@ macro_rules! prims_to_bnum {
                         $rec.fam("as", vec![src.clone(), ty.clone(), tag(stringify!($p))]);
                         $rec.form("as_", || val(As::as_::<$T>(pv)));
                         $rec.form("cast_from", || val(<$T as CastFrom<$p>>::cast_from(pv)));
+                        $rec.form("asprimitive", || val(<$p as num_traits::AsPrimitive<$T>>::as_(pv)));
                     }
                     if $prop == "C13" && <$T as Bn>::W >= $pw {
                         $rec.sem = "C13";
@@ -303,6 +350,7 @@ macro_rules! prim_body_one {
                     rec.sem = "C09";
                     rec.fam("as", vec![src.clone(), ty.clone(), tag("bool")]);
                     rec.form("as_", || val(As::as_::<$T>(bv)));
+                    rec.form("asprimitive", || val(<bool as num_traits::AsPrimitive<$T>>::as_(bv)));
                 }
                 if prop == "C13" {
                     rec.sem = "C13";
@@ -315,6 +363,7 @@ macro_rules! prim_body_one {
                     rec.sem = "C09";
                     rec.fam("as", vec![src.clone(), ty.clone(), tag("char")]);
                     rec.form("as_", || val(As::as_::<$T>(cv)));
+                    rec.form("asprimitive", || val(<char as num_traits::AsPrimitive<$T>>::as_(cv)));
                 }
                 if prop == "C13" && <$T as Bn>::W >= 32 {
                     rec.sem = "C13";
@@ -780,6 +829,9 @@ macro_rules! prim_prim_outer {
 }
 fn prim_prim_events() {
     with_ctx(|c| {
+        if c.cli.only_width.is_some() {
+            return;
+        }
         let mut rec = Rec::new();
         let mut r = Rng::new(c.cli.seed ^ 0x9090);
         prim_list!(prim_prim_outer; rec, &mut r);
@@ -823,6 +875,7 @@ fn main() {
             for_matrix!(per_type);
             for_giants!(prim_body);
             prim_prim_events();
+            asprim_family!(BUint, BInt; BUintD32, BIntD32; BUintD16, BIntD16; BUintD8, BIntD8);
         }
         "C13" => {
             pair_types!(for_pairs; pair_body);
